@@ -121,6 +121,7 @@ type cerSpec struct {
 	Items  []appItem `json:"items"`
 	HbH    []int     `json:"hbh"`
 	E2E    []int     `json:"e2e"`
+	NoM    bool      `json:"nom"` // the application AVPs are sent without the M bit
 }
 
 const peerHost = "peer.example.net"
@@ -176,7 +177,16 @@ func buildCER(c *cerSpec, dp *dict.Parser) []byte {
 		m.NewAVP(avp.InbandSecurityID, avp.Mbit, 0, datatype.Unsigned32(1))
 	}
 	for _, it := range c.Items {
-		m.AddAVP(appAVP(it))
+		a := appAVP(it)
+		if c.NoM { // the application AVPs travel without the M bit: what they say is the same
+			a.Flags &^= avp.Mbit
+			if g, ok := a.Data.(*diam.GroupedAVP); ok {
+				for _, in := range g.AVP {
+					in.Flags &^= avp.Mbit
+				}
+			}
+		}
+		m.AddAVP(a)
 	}
 	b, _ := m.Serialize()
 	return b
